@@ -2,7 +2,6 @@ package main
 
 import (
 	"fmt"
-	"go/ast"
 	"go/token"
 	"go/types"
 	"sort"
@@ -75,6 +74,8 @@ func runC02(c *Ctx) {
 		}
 	}
 	c.check(len(missing) == 0, "OP-REGISTRY", "postscript.makeSystemDict", "the 63 supported operators are bound to functions", token.NoPos, fmt.Sprintf("%d operators", len(names)), "operators missing from the system dictionary (or not bound to a builtin): "+strings.Join(missing, ", "))
+	c.check(reg.open["systemdict"] == 0, "OP-REGISTRY", "postscript.makeSystemDict", "the contents of the system dictionary are determined where it is built", token.NoPos, "every update has a constant key (or runs over a list of constant keys / a read-only table) and is made unconditionally",
+		fmt.Sprintf("%d update(s) of the system dictionary have a key that is not known statically or are made conditionally: what a name is bound to in a fresh interpreter cannot be decided", reg.open["systemdict"]))
 	dataTypes := map[string]string{"true": "Boolean", "false": "Boolean", "userdict": "Dict", "errordict": "Dict", "FontDirectory": "Dict", "StandardEncoding": "Array", "systemdict": "Dict"}
 	for k, want := range dataTypes {
 		e := reg.byKey["systemdict/"+k]
@@ -91,8 +92,8 @@ func runC02(c *Ctx) {
 	for k, want := range map[string]string{"true": "true", "false": "false"} {
 		if e := reg.byKey["systemdict/"+k]; e != nil {
 			v := ""
-			if call, ok := e.expr.(*ast.CallExpr); ok && len(call.Args) == 1 {
-				v = types.ExprString(call.Args[0])
+			if b, ok := constBool(stripConv(e.val)); ok {
+				v = fmt.Sprint(b)
 			}
 			c.check(v == want, "OP-REGISTRY", "postscript.makeSystemDict", k+" = Boolean("+want+")", token.NoPos, v, "the name "+k+" is bound to Boolean("+v+")")
 		}
@@ -762,6 +763,26 @@ func (c *Ctx) operandRegions(ia *interpAnchors, reg *registry) {
 	for _, ck := range checks {
 		f := reg.op("systemdict", ck.op)
 		fname := c.fname(f)
+		if ck.op == "putinterval" {
+			// decided on the evaluator (ext_x7.go): the operator is evaluated on every index around the
+			// ends of the destination and of the integer range × source lengths 0..4, for arrays and
+			// strings, helpers (generic ones included) evaluated in place; the entailment below only
+			// if an evaluation stops
+			stopped := ""
+			for _, kind := range []string{"Array", "String"} {
+				bad, _, cells, decided, why := c.putintervalByEvaluation(f, kind)
+				if !decided {
+					stopped = why
+					break
+				}
+				c.check(len(bad) == 0, "OP-REGION", fname, ck.op+": accepted operands ≡ "+ck.desc+" ("+strings.ToLower(kind)+")", f.Pos(), fmt.Sprintf("%d cells evaluated: index × length of the source", cells),
+					ck.op+": "+joinMax(bad, 3))
+			}
+			if stopped == "" {
+				continue
+			}
+			c.note("OP-REGION: the evaluation of putinterval stops (%s); deciding on the guards that dominate the copy", stopped)
+		}
 		rc := &regionCtx{c: c, ia: ia, f: f, fi: newFuncInfo(f)}
 		anchors := ck.anchors(rc)
 		if len(anchors) == 0 {
